@@ -137,6 +137,27 @@ def concat : List Holder → Except Err Holder
   | [h] => .ok h
   | h :: rest => .ok (rest.foldl combine h)
 
+/-! ### a collection filled by one model instance (sampling.py:56-62) -/
+
+/-- one model instance, as far as the samples it emits are concerned: the sample class, and --
+for the interaction model -- the insertions that built its `single_effect_lookup` dict so far
+(`_add_observations` does `self.single_effect_lookup.update(...)`; `get_model_state` hands the
+dict itself to every sample, so all samples of one instance carry the instance's CURRENT table) -/
+structure Inst where
+  cls : Cls
+  inserts : List ((Int × Int) × Int)
+
+def Inst.table (m : Inst) : Table :=
+  match m.cls with
+  | .combo => []
+  | .inter => tableOfPairs m.inserts
+
+/-- `t` is a `get_model_state()` of `m` -/
+def Inst.emits (m : Inst) (t : Sample) : Prop := t.cls = m.cls ∧ t.table = m.table
+
+/-- `for …: results.add_theta(model.get_model_state())` on a new `ThetaHolder(n_thetas=N)` -/
+def fill (N : Nat) (ts : List Sample) : Except Err Holder := ts.foldlM addTheta (Holder.empty N)
+
 /-! ### persistence -/
 
 structure Group where
